@@ -1,6 +1,8 @@
 package main
 
 import (
+	"go/types"
+	"go/token"
 	"fmt"
 
 	"golang.org/x/tools/go/ssa"
@@ -11,7 +13,7 @@ func init() {
 		"(R1) add-chain builds the SCT from the MerkleTreeLeaf decoded from the leaf the backend returned (duplicate ⇒ stored timestamp), hands the backend the leaf built from the validated chain, and add-chain/add-pre-chain bind entry types X509/Precert; "+
 		"(R2) IssueSCT and the response writer are unreachable on every fault edge (must-pass-through of each success test); "+
 		"(R3) buildV1SCT signs SHA-256 of SerializeSCTSignatureInput over the leaf's timestamp/extensions/entry, and the returned SCT carries those same fields, the log ID of the signer's public key and the algorithm pair (SHA256, key's algorithm); "+
-		"(R4) GetCTLogID = SHA-256 of the PKIX public key; the JSON response copies SCT fields and that ID; "+
+		"(R4) GetCTLogID = SHA-256 of the PKIX public key; the JSON response copies the fields of the SCT buildV1SCT returned (handed over untouched) and carries that ID — recomputed from the log's signer, or read from the LogID of that very SCT, which buildV1SCT set from GetCTLogID(signer.Public()) on every success return; "+
 		"(R5) the backend leaf is {LeafValue = tls.Marshal(merkle leaf), LeafIdentityHash = SHA-256 of the leaf certificate DER, ExtraData = chain structure for the entry type}; "+
 		"(R6) the whole validated path (root included) is raw[0], raw[1:] with raw[i] = chain[i].Raw; "+
 		"(R7) MerkleTreeLeafFromChain: X509 ⇒ chain[0].Raw; precert ⇒ BuildPrecertTBS(chain[0].RawTBSCertificate, preIssuer) and SHA-256 of the final issuer's SPKI (chain[2] when chain[1] is a pre-issuer), unknown type ⇒ error; timestamps are ns/1e6; "+
@@ -49,9 +51,10 @@ func runC01(r *Run) {
 		if c := r.OneCall(fn, "addChainInternal:verifyAddChain", "trillian/ctfe.verifyAddChain"); c != nil {
 			r.ExpectArg(c, "addChainInternal:verify.expectingPrecert", 2, "p4")
 		}
-		if c := r.OneCall(fn, "addChainInternal:response", "trillian/ctfe.marshalAndWriteAddChainResponse"); c != nil {
-			r.ExpectArg(c, "addChainInternal:response.sct", 0, "trillian/ctfe.buildV1SCT(*)#0")
-			r.ExpectArg(c, "addChainInternal:response.signer", 1, "p1.signer")
+		if c := r.OneCall(fn, "addChainInternal:response", c01WriterName); c != nil {
+			// the SCT handed to the writer is buildV1SCT's, untouched; the key it names is the log's
+			// (parameters found by what they are, see rules_t5c01.go)
+			c01ResponseCall(r, fn, c)
 		}
 		if c := r.OneCall(fn, "addChainInternal:IssueSCT", "iface(trillian/ctfe.RequestLog).IssueSCT"); c != nil {
 			r.ExpectArg(c, "addChainInternal:IssueSCT.bytes", 2, "tls.Marshal(*trillian/ctfe.buildV1SCT(*)#0)#0")
@@ -183,20 +186,10 @@ func runC01(r *Run) {
 		}
 		r.ErrorsGate(fn, "GetCTLogID:errors", "x509.MarshalPKIXPublicKey", 1)
 	}
-	if fn := r.Fn("trillian/ctfe.marshalAndWriteAddChainResponse"); fn != nil {
-		if c := r.OneCall(fn, "response:json", "json.Marshal"); c != nil {
-			r.ExpectFields(fn, "response", CallArgs(c)[0], map[string]string{
-				"SCTVersion": "p0.SCTVersion",
-				"Timestamp":  "p0.Timestamp",
-				"ID":         "trillian/ctfe.GetCTLogID(iface(crypto.Signer).Public(*))#0[:]",
-				"Extensions": "(*base64.Encoding).EncodeToString(g:base64.StdEncoding, p0.Extensions)",
-				"Signature":  "tls.Marshal(p0.Signature)#0",
-			})
-			if w := r.OneCall(fn, "response:write", "iface(http.ResponseWriter).Write"); w != nil {
-				r.ExpectArg(w, "response:write.bytes", 1, "json.Marshal(*)#0")
-			}
-		}
-		r.ErrorsGate(fn, "response:errors", "*", 4)
+	if fn := r.Fn(c01WriterName); fn != nil {
+		// the response repeats the fields of the SCT handed in; its ID is the hash of the log key,
+		// recomputed from the signer or read from that SCT (rules_t5c01.go)
+		c01ResponseWriter(r, fn)
 	}
 
 	r.Rule("C01.R5")
@@ -217,9 +210,21 @@ func runC01(r *Run) {
 	}
 	if fn := r.Fn("trillian/ctfe.extractRawCerts"); fn != nil {
 		r.ExpectStores(fn, "extractRawCerts:data", "&(new:ct.ASN1Cert#0.Data)", "p0[it@*].Raw", 1)
-		r.ExpectStores(fn, "extractRawCerts:elem", "&(make:[]ct.ASN1Cert(len(p0))[it@*])", "*new:ct.ASN1Cert#0", 1)
-		for _, ret := range Returns(fn) {
-			r.Check("extractRawCerts:result", r.D.D(ret.Results[0]) == "make:[]ct.ASN1Cert(len(p0))", r.Where(ret), "returns a slice of len(chain) elements: "+r.D.D(ret.Results[0]))
+		// element i of the result is {Data: chain[i].Raw} for every i and nothing else: filled by index into a
+		// slice of len(chain) elements, or appended — exactly once per round — to a list that starts empty
+		if why := c01AppendedPerElement(fn); why == "" {
+			r.Pass("extractRawCerts:elem", r.FnPos(fn), "one element is appended in every round of the loop over the chain, to a list that starts empty")
+			r.ExpectStores(fn, "extractRawCerts:elem.value", "&(new:[1]ct.ASN1Cert#0[0])", "*new:ct.ASN1Cert#0", 1)
+			for _, ret := range Returns(fn) {
+				r.Pass("extractRawCerts:result", r.Where(ret), "returns the appended list: "+r.D.D(ret.Results[0]))
+			}
+		} else if len(CallsTo(fn, "append")) > 0 {
+			r.Fail("extractRawCerts:elem", r.FnPos(fn), "the result is built by append, but not as one element per certificate: "+why)
+		} else {
+			r.ExpectStores(fn, "extractRawCerts:elem", "&(make:[]ct.ASN1Cert(len(p0))[it@*])", "*new:ct.ASN1Cert#0", 1)
+			for _, ret := range Returns(fn) {
+				r.Check("extractRawCerts:result", r.D.D(ret.Results[0]) == "make:[]ct.ASN1Cert(len(p0))", r.Where(ret), "returns a slice of len(chain) elements: "+r.D.D(ret.Results[0]))
+			}
 		}
 	}
 
@@ -496,4 +501,87 @@ func c01LogLeaf(r *Run) {
 		r.ExpectStores(fn, "ExtraDataForChain:x509.chain", "&(new:ct.CertificateChain#0.Entries)", "p1", 1)
 	}
 
+}
+
+// c01AppendedPerElement: every return of fn hands back a list that is empty before a loop ranging over the whole
+// of parameter 0 and receives exactly one single-element append in every round ("" when so, else why not).
+func c01AppendedPerElement(fn *ssa.Function) string {
+	rets := Returns(fn)
+	if len(rets) == 0 || len(fn.Params) == 0 {
+		return "no return"
+	}
+	for _, ret := range rets {
+		ph, ok := ret.Results[0].(*ssa.Phi)
+		if !ok {
+			return "the result is not a list carried round a loop"
+		}
+		H := ph.Block()
+		// H: if it < len(p0), the counter starting at 0 / range index
+		ifs, ok := H.Instrs[len(H.Instrs)-1].(*ssa.If)
+		if !ok || len(H.Succs) != 2 {
+			return "the list is not merged at a loop head"
+		}
+		cmp, ok := ifs.Cond.(*ssa.BinOp)
+		if !ok || cmp.Op != token.LSS {
+			return "the loop is not bounded by a length"
+		}
+		ln, ok := cmp.Y.(*ssa.Call)
+		if !ok || len(ln.Call.Args) != 1 || ln.Call.Args[0] != ssa.Value(fn.Params[0]) {
+			return "the loop does not range over the whole chain"
+		}
+		if b, isB := ln.Call.Value.(*ssa.Builtin); !isB || b.Name() != "len" {
+			return "the loop does not range over the whole chain"
+		}
+		body := H.Succs[0]
+		var app *ssa.Call
+		for i, e := range ph.Edges {
+			pred := H.Preds[i]
+			inLoop := body.Dominates(pred)
+			if !inLoop {
+				switch x := e.(type) {
+				case *ssa.Const:
+					if !x.IsNil() {
+						return "the list does not start empty"
+					}
+				case *ssa.MakeSlice:
+					if !isConstInt(x.Len, 0) {
+						return "the list does not start empty"
+					}
+				default:
+					return "the list does not start empty"
+				}
+				continue
+			}
+			c, ok := e.(*ssa.Call)
+			if !ok {
+				return "a round ends without appending"
+			}
+			if b, isB := c.Call.Value.(*ssa.Builtin); !isB || b.Name() != "append" || len(c.Call.Args) != 2 || c.Call.Args[0] != ssa.Value(ph) {
+				return "a round does not append to the list so far"
+			}
+			sl, ok := c.Call.Args[1].(*ssa.Slice)
+			if !ok {
+				return "more than one element may be appended"
+			}
+			arr, ok := sl.X.(*ssa.Alloc)
+			if !ok {
+				return "more than one element may be appended"
+			}
+			at, ok := arr.Type().(*types.Pointer).Elem().Underlying().(*types.Array)
+			if !ok || at.Len() != 1 {
+				return "not exactly one element is appended"
+			}
+			if app != nil && app != c {
+				return "two appends in one round"
+			}
+			app = c
+			if !c.Block().Dominates(pred) {
+				return "a round can end without the append"
+			}
+		}
+		if app == nil {
+			return "no append in the loop"
+		}
+	}
+	return ""
 }
